@@ -15,7 +15,7 @@ def run(tier):
     thr = C.ncpu()
     if tier == 'quick':
         plan = {'ecdsa_p256': 6000, 'ecdsa_p384': 3000, 'ecdsa_p521': 2000, 'ed25519': 6000, 'ed448': 2000,
-                'rsa2048': 32, 'rsa4096': 16}
+                'rsa2048': 48, 'rsa4096': 16}
     else:
         plan = {'ecdsa_p256': 60000, 'ecdsa_p384': 30000, 'ecdsa_p521': 20000, 'ed25519': 60000, 'ed448': 20000,
                 'rsa2048': 500, 'rsa4096': 100}
@@ -26,6 +26,7 @@ def run(tier):
         kt = r['key_type']
         chk.evaluations += r['keys']
         chk.count('keys_' + kt, r['keys'])
+        chk.count('loaded_keys_' + kt, r.get('loaded', 0))
         chk.count('signatures_verified', r['sigs'])
         for k in ('lead0_x', 'lead0_y', 'short_r', 'short_s'):
             if r[k]:
@@ -42,7 +43,8 @@ def run(tier):
         for f in r['failures']:
             why = f['why']
             sig = 'C15|%s|%s' % (kt, why[0].split(':')[0][:80])
-            chk.violation(sig, '%s key: %s' % (kt, '; '.join(why)[:400]), f)
+            f = dict(f)
+            chk.violation(sig, '%s key (%s): %s' % (kt, f.get('origin', 'generated'), '; '.join(why)[:400]), f)
         if kt.startswith('ecdsa') and r['keys'] >= 2000 and (r['short_r'] + r['short_s'] == 0 or r['lead0_x'] + r['lead0_y'] == 0):
             chk.inconclusive.append('no short ECDSA component / coordinate seen for %s' % kt)
     # distinct non-trivial cases: key types checked plus every rare encoding that was actually hit
@@ -50,7 +52,7 @@ def run(tier):
         for k in ('lead0_x', 'lead0_y', 'short_r', 'short_s'):
             if r[k]:
                 chk.distinct.add('%s:%s' % (r['key_type'], k))
-    chk.rule = ('fresh keys per key type through acme_common::gen_keypair, 3 random messages each; a case is '
+    chk.rule = ('fresh keys per key type through acme_common::gen_keypair, every fourth one made by OpenSSL alone and loaded from PKCS#8 / traditional PEM or DER (RSA with public exponents 3..2^32+1), 3 random messages each; a case is '
                 'distinct/non-trivial per key type and per rare encoding class actually observed '
                 '(leading-zero coordinate, short R, short S)')
     chk.notes['rare_encodings_observed'] = rare
